@@ -4,7 +4,10 @@ import (
 	"bytes"
 	"fmt"
 	"github.com/gorilla/websocket"
+	"golang.org/x/net/http2"
+	"golang.org/x/net/http2/h2c"
 	"io"
+	"net"
 	"net/http"
 	"strings"
 	"sync"
@@ -19,14 +22,37 @@ func init() {
 }
 
 // sabotageBackend misbehaves for requests whose X-Sabotage header asks for it.
-func startSabotageBackend(w *World) *countingBackend {
+//
+// With h2 set the backend also speaks HTTP/2 without TLS (for an agent started
+// with -force-http2). DropConns closes every connection the backend has accepted.
+func startSabotageBackend(w *World, h2 bool) *countingBackend {
 	cb := &countingBackend{Seen: map[string]int{}}
+	var cmu sync.Mutex
+	var accepted []net.Conn
+	cb.DropConns = func() {
+		cmu.Lock()
+		cs := accepted
+		accepted = nil
+		cmu.Unlock()
+		for _, c := range cs {
+			c.Close()
+		}
+	}
 	w.K.Spawn("agenthost", func() {
-		l, err := sim.Listen("tcp", ":8080")
+		l0, err := sim.Listen("tcp", ":8080")
 		if err != nil {
 			panic(err)
 		}
-		http.Serve(l, http.HandlerFunc(func(rw http.ResponseWriter, r *http.Request) {
+		l := &recordingListener{Listener: l0, on: func(c net.Conn) {
+			cmu.Lock()
+			accepted = append(accepted, c)
+			cmu.Unlock()
+		}}
+		wrap := func(h http.Handler) http.Handler { return h }
+		if h2 {
+			wrap = func(h http.Handler) http.Handler { return h2c.NewHandler(h, &http2.Server{}) }
+		}
+		http.Serve(l, wrap(http.HandlerFunc(func(rw http.ResponseWriter, r *http.Request) {
 			tok := r.Header.Get("X-Token")
 			if websocket.IsWebSocketUpgrade(r) {
 				up := websocket.Upgrader{CheckOrigin: func(*http.Request) bool { return true }}
@@ -42,6 +68,14 @@ func startSabotageBackend(w *World) *countingBackend {
 					if strings.Contains(r.URL.Path, "ws-bye") {
 						// says goodbye and hangs up at once
 						c.WriteMessage(websocket.TextMessage, []byte("goodbye"))
+						return
+					}
+					if strings.Contains(r.URL.Path, "ws-sclose") {
+						// does not read for a while (client data backs up in the relay), then
+						// ends the session with a close frame and keeps the connection up
+						time.Sleep(2 * time.Second)
+						c.WriteControl(websocket.CloseMessage, websocket.FormatCloseMessage(websocket.CloseNormalClosure, "done"), time.Now().Add(time.Second))
+						time.Sleep(20 * time.Second)
 						return
 					}
 					if strings.Contains(r.URL.Path, "ws-stall") {
@@ -63,7 +97,8 @@ func startSabotageBackend(w *World) *countingBackend {
 			hijack := func() (*sim.Conn, bool) {
 				hj, ok := rw.(http.Hijacker)
 				if !ok {
-					return nil, false
+					// HTTP/2: the stream is reset instead
+					panic(http.ErrAbortHandler)
 				}
 				c, _, err := hj.Hijack()
 				if err != nil {
@@ -130,9 +165,22 @@ func startSabotageBackend(w *World) *countingBackend {
 			}
 			rw.Header().Set("X-Echo-Token", tok)
 			rw.Write(tokenBody(tok+"/resp", 2000))
-		}))
+		})))
 	})
 	return cb
+}
+
+type recordingListener struct {
+	net.Listener
+	on func(net.Conn)
+}
+
+func (l *recordingListener) Accept() (net.Conn, error) {
+	c, err := l.Listener.Accept()
+	if err == nil {
+		l.on(c)
+	}
+	return c, err
 }
 
 // worldC07: healthy concurrent requests, sabotaged requests (backend failures,
@@ -147,7 +195,7 @@ func worldC07(w *World) {
 	nBad := t.Range(1, 5, "sabotaged")
 	kinds := []string{"reset-before-headers", "reset-mid-body", "close-mid-body", "garbage", "bad-header", "bad-chunk", "hang-then-close"}
 	if shim {
-		kinds = append(kinds, "shim-garbage-open", "shim-garbage-data", "shim-garbage-poll", "shim-unknown-close", "shim-odd-blob", "shim-odd-blob", "shim-data-close-race", "shim-data-close-race", "shim-hangup-before-poll", "shim-bad-frame")
+		kinds = append(kinds, "shim-garbage-open", "shim-garbage-data", "shim-garbage-poll", "shim-unknown-close", "shim-odd-blob", "shim-odd-blob", "shim-data-close-race", "shim-data-close-race", "shim-hangup-before-poll", "shim-bad-frame", "shim-backend-closes-under-load")
 	}
 	type creq struct {
 		tok    string
@@ -168,10 +216,15 @@ func worldC07(w *World) {
 	}
 	unreachable := t.Rare(1, 2, "unreachable")
 	startProxy(w)
-	cb := startSabotageBackend(w)
+	// now and then the backend speaks HTTP/2 (agent flags -force-http2 -debug)
+	h2 := t.Rare(1, 4, "h2backend")
+	cb := startSabotageBackend(w, h2)
 	var args []string
 	if shim {
 		args = append(args, "-shim-websockets", "-shim-path=shim")
+	}
+	if h2 {
+		args = append(args, "-force-http2", "-debug")
 	}
 	startAgent(w, args...)
 	var wg sync.WaitGroup
@@ -235,6 +288,26 @@ func worldC07(w *World) {
 			rg.Wait()
 			w.K.Count("fault.shim_data_racing_close")
 			req, _ = http.NewRequest("POST", "http://proxy:80/shim/close", strings.NewReader(`{"id":"`+sid+`"}`))
+		case "shim-backend-closes-under-load":
+			// the backend ends the session from its side while client data is backed up
+			sc := newShimClient(w, 1)
+			st, rep, _, err := sc.open("ws://example.test/ws-sclose-" + r.tok)
+			sid := "1"
+			if err == nil && st == 200 && rep != nil {
+				sid = rep.ID
+			}
+			big := wsMsg{Data: bytes.Repeat([]byte("m"), 300000)}
+			var rg sync.WaitGroup
+			for j := 0; j < 3; j++ {
+				rg.Add(1)
+				go func() {
+					defer rg.Done()
+					sc.data(sid, 1, []wsMsg{big, big})
+				}()
+			}
+			rg.Wait()
+			w.K.Count("fault.shim_backend_closes_while_data_backed_up")
+			req, _ = http.NewRequest("POST", "http://proxy:80/shim/poll", strings.NewReader(`{"id":"`+sid+`"}`))
 		case "shim-bad-frame":
 			// the backend sends a frame that is not valid websocket; polls and data follow
 			sc := newShimClient(w, 1)
@@ -298,6 +371,11 @@ func worldC07(w *World) {
 			w.K.Faults = append(w.K.Faults, f)
 			// idle connections to the backend must not mask the outage
 			http.DefaultTransport.(*http.Transport).CloseIdleConnections()
+			cb.DropConns()
+			if h2 {
+				time.Sleep(50 * time.Millisecond)
+				w.Probe("http2_backend_unreachable")
+			}
 			unreach = &creq{tok: "unreach"}
 			wg.Add(1)
 			do(unreach)
@@ -318,7 +396,7 @@ func worldC07(w *World) {
 			desc = append(desc, r.sab)
 		}
 	}
-	w.Sample = map[string]interface{}{"healthy": nHealthy, "sabotaged": desc, "shim": shim, "unreachable_window": unreachable}
+	w.Sample = map[string]interface{}{"healthy": nHealthy, "sabotaged": desc, "shim": shim, "unreachable_window": unreachable, "http2_backend": h2}
 	w.OnCheck(func() {
 		for _, e := range w.K.Exits {
 			if e.Node == "agenthost" {
